@@ -4,6 +4,7 @@ use crate::engine::{Replayer, Run};
 pub mod c01;
 pub mod common;
 pub mod dec;
+pub mod decprops;
 pub mod stateprops;
 pub mod enc;
 pub mod encprops;
@@ -15,12 +16,16 @@ pub type Runner = fn(&mut Run);
 
 pub const ALL: &[(&str, Runner, Replayer)] = &[
     ("C01", c01::run, c01::replay),
+    ("C02", decprops::run_c02, decprops::replay_c02),
     ("C03", encprops::run_c03, encprops::replay_c03),
     ("C04", encprops::run_c04, encprops::replay_c04),
     ("C05", encprops::run_c05, encprops::replay_c05),
     ("C06", encprops::run_c06, encprops::replay_c06),
     ("C07", encprops::run_c07, encprops::replay_c07),
     ("C08", encprops::run_c08, encprops::replay_c08),
+    ("C09", decprops::run_c09, decprops::replay_c09),
+    ("C10", decprops::run_c10, decprops::replay_c10),
+    ("C11", decprops::run_c11, decprops::replay_c11),
     ("C12", stateprops::run_c12, stateprops::replay_c12),
     ("C13", stateprops::run_c13, stateprops::replay_c13),
     ("C14", stateprops::run_c14, stateprops::replay_c14),
